@@ -19,14 +19,112 @@ FUNC_TYPES = (ast.FunctionDef, ast.AsyncFunctionDef)
 SCOPE_TYPES = FUNC_TYPES + (ast.ClassDef, ast.Lambda)
 
 
+class NormStr(str):
+    """Normalised source text of an AST node that compares equal to an expected text *up to a
+    consistent renaming of variables bound inside the expression itself* (lambda parameters,
+    comprehension targets).  Keeps rules that state an expected expression robust against
+    behaviour-preserving renames of such variables."""
+    __slots__ = ('node',)
+
+    def __new__(cls, text, node):
+        o = str.__new__(cls, text)
+        o.node = node
+        return o
+
+    def __eq__(self, other):
+        if str.__eq__(self, other):
+            return True
+        if isinstance(other, str) and not isinstance(other, NormStr) and self.node is not None:
+            return _alpha_eq(self.node, other)
+        return False
+
+    def __ne__(self, other):
+        return not self.__eq__(other)
+
+    __hash__ = str.__hash__
+
+
+def _renameable(node):
+    """names that may be renamed consistently without changing meaning: variables bound INSIDE the
+    compared node itself (lambda parameters, comprehension targets).  Function-level locals are not
+    renamed: rules use their names to select statements."""
+    names = set()
+    for n in ast.walk(node) if isinstance(node, ast.AST) else []:
+        if isinstance(n, ast.Lambda):
+            names |= {x.arg for x in n.args.args + n.args.kwonlyargs + n.args.posonlyargs}
+        elif isinstance(n, ast.comprehension):
+            names |= {x.id for x in ast.walk(n.target) if isinstance(x, ast.Name)}
+    return names
+
+
+def _alpha_eq(node, text):
+    try:
+        if isinstance(node, ast.expr):
+            exp = ast.parse(text, mode='eval').body
+        elif isinstance(node, ast.stmt):
+            body = ast.parse(text).body
+            if len(body) != 1:
+                return False
+            exp = body[0]
+        else:
+            return False
+    except SyntaxError:
+        return False
+    ren = _renameable(node)
+    fwd, back = {}, {}
+
+    def uni(a, e):
+        if type(a) is not type(e):
+            return False
+        if isinstance(a, ast.Name):
+            if a.id == e.id and a.id not in back and e.id not in fwd:
+                return True
+            if a.id in ren:
+                if fwd.get(e.id, a.id) != a.id or back.get(a.id, e.id) != e.id:
+                    return False
+                fwd[e.id] = a.id
+                back[a.id] = e.id
+                return True
+            return a.id == e.id
+        if isinstance(a, ast.arg):
+            if a.arg in ren or a.arg == e.arg:
+                if fwd.get(e.arg, a.arg) != a.arg or back.get(a.arg, e.arg) != e.arg:
+                    return False
+                fwd[e.arg] = a.arg
+                back[a.arg] = e.arg
+                return True
+            return False
+        for fld in a._fields:
+            if fld in ('ctx', 'type_comment', 'kind'):
+                continue
+            x, y = getattr(a, fld, None), getattr(e, fld, None)
+            if isinstance(x, list):
+                if not isinstance(y, list) or len(x) != len(y):
+                    return False
+                for i, j in zip(x, y):
+                    if isinstance(i, ast.AST):
+                        if not uni(i, j):
+                            return False
+                    elif i != j:
+                        return False
+            elif isinstance(x, ast.AST):
+                if not isinstance(y, ast.AST) or not uni(x, y):
+                    return False
+            elif x != y:
+                return False
+        return True
+    return uni(node, exp)
+
+
 def norm(node):
-    """Normalised source text of an AST node (formatting/comment independent)."""
+    """Normalised source text of an AST node (formatting/comment independent).  The result
+    compares equal to an expected text up to a consistent renaming of locals (see NormStr)."""
     if node is None:
         return ''
     if isinstance(node, list):
         return '; '.join(norm(n) for n in node)
     try:
-        return ast.unparse(node)
+        return NormStr(ast.unparse(node), node)
     except Exception:  # pragma: no cover
         return ast.dump(node)
 
@@ -73,6 +171,8 @@ class Module:
         self.src = src
         self.digest = hashlib.sha256(src.encode('utf-8')).hexdigest()
         self.tree = ast.parse(src, filename=path)
+        from .locals_ref import normalise
+        self.renames = normalise(name, self.tree)   # locals renamed back to their reference names
         self.is_package = os.path.basename(path) == '__init__.py'
         self.package = name if self.is_package else name.rpartition('.')[0]
         self.defs = {}      # qualname -> FunctionDef/ClassDef (nested included)
